@@ -19,10 +19,13 @@ EXPLANATION = (
 
 def run(tier: str) -> Check:
     check = Check("C08", tier, EXPLANATION)
-    check.rules = ["R1", "R2", "K2", "SPEC-attempt", "SPEC-result", "SPEC-live", "SHAPE", "R7", "TAGS", "RULE-PAIR"]
+    check.rules = ["R1", "R2", "K2", "SPEC-attempt", "SPEC-result", "SPEC-live", "SHAPE", "R7", "TAGS", "RULE-PAIR", "MASK-AXES"]
     check.assumptions = [
         "the behaviour on the bundled grammars is claimed through the operator induction, not analysed per grammar",
         "whether an optimizer pass applies to the rewritten shape is C02's subject",
     ]
-    fill(check, tier, floors={"parse_paths": 100, "rule_paths": 200})
+    repo, _ = fill(check, tier, floors={"parse_paths": 100, "rule_paths": 200})
+    from ..masks import apply as mask_axes
+
+    mask_axes(check, repo, "MASK-AXES", 12)
     return check
